@@ -74,6 +74,10 @@ type simFrame struct {
 	Routes    []protocol.Route
 	DecodeErr string // non-empty when the harness could not decode what was sent
 
+	// Originated: the sender put this frame on the wire on its own initiative (announcement,
+	// withdrawal, full-table replay, node info) and not while handling a received frame.
+	Originated bool
+
 	// Hops is the harness's own count of the links this announcement has crossed when this
 	// frame arrives: a frame emitted while a frame of the same type was being handled (a
 	// forward) has the hops of that frame + 1; any other frame starts at the length of its
@@ -312,6 +316,7 @@ func (s *simNet) enqueue(from, to int, wire []byte) {
 	f := &simFrame{ID: s.nextID, From: from, To: to, Wire: wire}
 	s.nextID++
 	s.describe(f)
+	f.Originated = s.cur == nil
 	if s.cur != nil && s.cur.Type == f.Type && s.cur.To == from {
 		f.Hops = s.cur.Hops + 1
 	} else if f.Hops = len(f.Path); f.Hops < 1 {
